@@ -269,6 +269,7 @@ class Ctx:
         """equality usable inside conditions: exact in sym mode, within tolerance natively"""
         if self.sym: return SBool(T(a) == T(b))
         a = float(a); b = float(b)
+        if math.isinf(a) or math.isinf(b): return a == b          # (inf <= inf would make an infinite value close to everything)
         return abs(a - b) <= self.atol + (tol or self.rtol) * max(abs(a), abs(b))
     def le(self, a, b, tol=None):
         if self.sym: return SBool(T(a) <= T(b))
@@ -361,7 +362,7 @@ class Ctx:
             if not core.is_sym(np.asarray(fa, dtype=object)) and not core.is_sym(np.asarray(fb, dtype=object)):
                 # closed comparison of two concrete values: numeric, within tolerance
                 rt = tol or self.rtol
-                ok = all((x == y) or (abs(float(x) - float(y)) <= self.atol + rt * max(abs(float(x)), abs(float(y)))) or (math.isnan(float(x)) and math.isnan(float(y)))
+                ok = all((x == y) or (not (math.isinf(float(x)) or math.isinf(float(y))) and abs(float(x) - float(y)) <= self.atol + rt * max(abs(float(x)), abs(float(y)))) or (math.isnan(float(x)) and math.isnan(float(y)))
                          for x, y in zip(fa, fb))
                 self.obls.append(Obl(name, self._hyps(), z3.BoolVal(bool(ok)), None, note + ' (closed numeric comparison)', 'closed')); return
             if approx:
@@ -395,7 +396,7 @@ class Ctx:
             for k, (x, y) in enumerate(zip(A, Bv)):
                 if math.isnan(x) and math.isnan(y): continue
                 if x == y: continue
-                if not (abs(x - y) <= self.atol + rt * max(abs(x), abs(y))):
+                if math.isinf(x) or math.isinf(y) or not (abs(x - y) <= self.atol + rt * max(abs(x), abs(y))):      # an infinite value equals only itself
                     self.numfails.append(NumFail(name, f"[{k}] observed {x!r} expected {y!r}")); return
 
     def expect_raise(self, name, fn, exc=Exception, note=''):
